@@ -74,6 +74,10 @@ def vmx_spec(draw, tier, combo=None):
     # decoy pairs in front of the real one that decrypt, under the real passphrase, to bytes ending in valid padding by chance
     chance_padding = correct > 0 and draw(st.booleans())
     inner = draw(st.one_of(entries(2, 6), entries(0, 1)))
+    if draw(st.integers(0, 9)) == 0:
+        # a configuration well beyond 32 KiB (long annotation / many device entries): the encrypted blob spans many chunks
+        big = draw(st.sampled_from([0x8000 - 20, 0x8000 + 1, 40000, 70000]))
+        inner = [e for e in inner if e[0].lower() != "annotation"] + [["annotation", ("note " * (big // 5 + 1))[:big].strip()]]
     spec = {
         "outer": draw(entries(0, 4)), "inner": inner, "pairs": pairs, "correct": correct, "data_cipher": data_cipher,
         "data_key": draw(st.binary(min_size=bx.KEY_SIZES[data_cipher], max_size=bx.KEY_SIZES[data_cipher])).hex(),
@@ -177,7 +181,9 @@ def check(spec) -> Outcome:
     # (c) single-byte tampering of every position of every field of the real pair and of encryption.data
     ntamper = 0
     for field, ln in sorted(lengths.items()):
-        for pos in range(ln):
+        # every byte of the short fields; for long ciphertexts the first and last blocks plus 64 evenly spread positions
+        positions = range(ln) if ln <= 512 else sorted(set(range(32)) | set(range(ln - 32, ln)) | set(range(0, ln, max(1, ln // 64))))
+        for pos in positions:
             for x in spec["xors"][:1] if ln > 64 else spec["xors"]:
                 t_text, _a, t_before, _l = bx.build(spec, tamper=(field, pos, x))
                 v, b4, err = unlock(t_text, p["passphrase"])
